@@ -3,7 +3,7 @@
    whole matrix), then rows, then columns; for derivation histories, the store of the EXPRESSIONS the
    readers denote.  Plus the boolean checkers used by Corr.v. *)
 From Coq Require Import ZArith List Lia Bool.
-From PV Require Import Base.PySlice Base.NpSearch C01.Model C02.Model.
+From PV Require Import Base.PySlice Base.NpSearch C01.Model C01.Spec C02.Model.
 Import ListNotations.
 Open Scope Z_scope.
 
@@ -92,15 +92,17 @@ Proof.
   - intros H; injection H as -> ->. rewrite andb_true_iff, IH, zl_eqb_eq. split; reflexivity.
 Qed.
 
-(* values (and shape) / dtype of a block *)
-Definition vals_eqb (x y : zarr) : bool := zm_eqb (a_rows x) (a_rows y).
+(* values and shape (the column count is compared explicitly: on a block of 0 rows it is the only thing
+   left of the shape) / dtype of a block *)
+Definition vals_eqb (x y : zarr) : bool := (a_nc x =? a_nc y) && zm_eqb (a_rows x) (a_rows y).
 Definition dt_eqb (x y : zarr) : bool := a_dt x =? a_dt y.
 Definition zarr_eqb (x y : zarr) : bool := dt_eqb x y && vals_eqb x y.
 
 Lemma zarr_eqb_eq x y : zarr_eqb x y = true <-> x = y.
 Proof.
-  destruct x as [d r], y as [d' r']. unfold zarr_eqb, dt_eqb, vals_eqb; cbn [a_dt a_rows].
-  rewrite andb_true_iff, zm_eqb_eq, Z.eqb_eq. split; [intros [-> ->]; reflexivity|intros H; injection H as -> ->; split; reflexivity].
+  destruct x as [d c r], y as [d' c' r']. unfold zarr_eqb, dt_eqb, vals_eqb; cbn [a_dt a_nc a_rows].
+  rewrite !andb_true_iff, zm_eqb_eq, !Z.eqb_eq.
+  split; [intros [-> [-> ->]]; reflexivity|intros H; injection H as -> -> ->; repeat split; reflexivity].
 Qed.
 
 (* the observed answer to a read agrees with the reference answer: values / dtype / kind *)
@@ -238,3 +240,53 @@ Fixpoint sruns (M : arr A D) (cmds : list cmd) (est : list expr) : option (list 
 (* an observed answer agrees with the reference when there is one *)
 Definition agrees (o : @out A D) (ro : option (@out A D)) : Prop := forall o', ro = Some o' -> o = o'.
 End SpecRun.
+
+(* ---------------------------------------------------------------------------------------- *)
+(* "followed by every row index": the row indices of the statement                            *)
+(* ---------------------------------------------------------------------------------------- *)
+(* C01's regime (PV.C01.Spec.valid_item: integers, unit-step slices selecting >= 1 row, non-empty
+   increasing lists) PLUS the empty selections the reader without deferred operations answers like
+   NumPy (a (0, c) block): unit-step slices with bounds in {None} u [-n, n] whose NumPy-normalised
+   bounds satisfy 0 < e <= s < n, with row s and row e - 1 in the same file.  [sizes]: the numbers of
+   rows of the files.  Outside: stop = 0 (phylib reads it as None -- DESIGN §8 C01), and the empty
+   selections on which the base reader itself raises (np.vstack of no block: start = n, stop = -n,
+   s and e - 1 in different files, an empty index list) -- there a derived reader raises exactly like
+   its base (model clause), and NumPy's answer is not claimed. *)
+Definition empty_item (sizes : list Z) (it : item) : Prop :=
+  match it with
+  | ISlice start stop step =>
+      let n := zsum sizes in
+      let s := np_bound n 0 start in let e := np_bound n n stop in
+      unit_step step /\ bound_ok n start /\ bound_ok n stop /\ 0 < e /\ e <= s /\ s < n /\
+      find_chunk (part_bounds sizes) s = find_chunk (part_bounds sizes) (e - 1)
+  | _ => False
+  end.
+
+Definition empty_item_b (sizes : list Z) (it : item) : bool :=
+  match it with
+  | ISlice start stop step =>
+      let n := zsum sizes in
+      let s := np_bound n 0 start in let e := np_bound n n stop in
+      unit_step_b step && bound_ok_b n start && bound_ok_b n stop && (0 <? e) && (e <=? s) && (s <? n) &&
+      (find_chunk (part_bounds sizes) s =? find_chunk (part_bounds sizes) (e - 1))
+  | _ => false
+  end.
+
+Lemma empty_item_b_spec sizes it : empty_item_b sizes it = true <-> empty_item sizes it.
+Proof.
+  destruct it as [i|start stop step|l]; cbn [empty_item_b empty_item]; [split; [discriminate|tauto]| |split; [discriminate|tauto]].
+  cbv zeta. rewrite !andb_true_iff.
+  assert (Hs : unit_step_b step = true <-> unit_step step).
+  { unfold unit_step_b, unit_step. destruct step as [s|].
+    - split; [intros H; right; f_equal; lia|intros [H|H]; [discriminate|injection H as ->; reflexivity]].
+    - split; [now left|reflexivity]. }
+  assert (Hb : forall x, bound_ok_b (zsum sizes) x = true <-> bound_ok (zsum sizes) x).
+  { intros [v|]; cbn [bound_ok_b bound_ok]; [rewrite andb_true_iff; lia|tauto]. }
+  rewrite Hs, !Hb, !Z.ltb_lt, Z.leb_le, Z.eqb_eq. tauto.
+Qed.
+
+(* the row indices of C02's statement on a recording stored in files of [sizes] rows *)
+Definition row_item (sizes : list Z) (it : item) : Prop := valid_item (zsum sizes) it \/ empty_item sizes it.
+Definition row_item_b (sizes : list Z) (it : item) : bool := valid_item_b (zsum sizes) it || empty_item_b sizes it.
+Lemma row_item_b_spec sizes it : row_item_b sizes it = true <-> row_item sizes it.
+Proof. unfold row_item_b, row_item. rewrite orb_true_iff, valid_item_b_spec, empty_item_b_spec. tauto. Qed.
